@@ -59,6 +59,104 @@ def _setup():
     return _M
 
 
+_CODE = {}
+_CFUNCS = {}
+_COPY_N = [0]
+
+
+def fresh_tsdate_modules():
+    """A fresh copy of the tsdate package under a private name: every module body is executed again (code objects are
+    cached), so all module-level state of tsdate is pristine.  Only meaningful with the JIT off (with it on, executing
+    the bodies would recompile every kernel)."""
+    import importlib
+    import importlib.machinery
+    import importlib.util
+    import sys as _sys
+
+    import tskit.provenance
+
+    pkgdir = os.path.join(os.path.realpath(os.environ.get("TSDATE_REPO", "/repo")), "tsdate")
+    _COPY_N[0] += 1
+    name = f"tsdate_iso{_COPY_N[0]}"
+
+    class Loader(importlib.machinery.SourceFileLoader):
+        def get_code(self, fullname):
+            path = self.get_filename(fullname)
+            c = _CODE.get(path)
+            if c is None:
+                c = _CODE[path] = super().get_code(fullname)
+            return c
+
+    class Finder:
+        def find_spec(self, fullname, path=None, target=None):
+            if fullname == name:
+                f = os.path.join(pkgdir, "__init__.py")
+                return importlib.util.spec_from_file_location(fullname, f, loader=Loader(fullname, f),
+                                                              submodule_search_locations=[pkgdir])
+            if fullname.startswith(name + "."):
+                f = os.path.join(pkgdir, fullname.split(".")[-1] + ".py")
+                if os.path.exists(f):
+                    return importlib.util.spec_from_file_location(fullname, f, loader=Loader(fullname, f))
+            return None
+
+    # numba.cfunc compiles even with the JIT disabled (one tiny wrapper around a scipy function pointer in hypergeo.py).
+    # An LLVM compile per module copy costs little CPU but, with 16 workers doing it at once, a lot of kernel time on
+    # this VM (page-table operations serialise).  Identical code compiles to an identical wrapper, so reuse it.
+    import numba
+
+    real_cfunc = numba.cfunc
+
+    def cfunc_memo(sig, **kw):
+        def deco(fn):
+            key = (str(sig), fn.__code__.co_code, fn.__code__.co_consts, fn.__name__, tuple(sorted(kw)))
+            c = _CFUNCS.get(key)
+            if c is None:
+                c = _CFUNCS[key] = real_cfunc(sig, **kw)(fn)
+            return c
+        return deco
+
+    numba.cfunc = cfunc_memo
+    fd = Finder()
+    _sys.meta_path.insert(0, fd)
+    try:
+        pkg = importlib.import_module(name)
+        sub = {n: importlib.import_module(f"{name}.{n}") for n in ("core", "util", "variational", "discrete")}
+    finally:
+        _sys.meta_path.remove(fd)
+        numba.cfunc = real_cfunc
+    return {"name": name, "tsdate": pkg, "discrete": sub["discrete"],
+            "clock_modules": [sub["core"], sub["util"], sub["variational"], tskit.provenance]}
+
+
+def drop_modules(mods):
+    import sys as _sys
+
+    name = mods.get("name")
+    if name:
+        for k in [k for k in _sys.modules if k == name or k.startswith(name + ".")]:
+            del _sys.modules[k]
+
+
+_CACHE_DIR = [None]
+
+
+def _cache_dir_seam(*a, **k):
+    if _CACHE_DIR[0] is None:
+        return _REAL_UCD[0](*a, **k)
+    return os.path.join(_CACHE_DIR[0], "cache")
+
+
+_REAL_UCD = [None]
+
+
+def install_cache_seam():
+    import appdirs
+
+    if _REAL_UCD[0] is None:
+        _REAL_UCD[0] = appdirs.user_cache_dir
+        appdirs.user_cache_dir = _cache_dir_seam
+
+
 def _send(fd, obj):
     import pickle
     import struct
@@ -129,9 +227,18 @@ class C09Engine(Engine):
     prop = "C09"
     name = "hist"
     level = "exploration"
-    chunk = 6
+    chunk = 10
+    run_timeout = 1800
     selftest_m = {"quick": 16, "thorough": 64}
-    sweep_hashseeds = {"quick": [1, 2, 3], "thorough": [1, 2, 3, 5, 8, 13, 21, 34, 55, 89, 144, 233, 377, 610, 987]}
+    # The main batch runs with the JIT OFF: a fork of the JIT-loaded interpreter costs 0.15 s alone and ~10x that when
+    # 16 workers fork concurrently on this VM, against 0.025 s without the JIT; with the process isolation below
+    # that is the difference between 0.4 and 30 histories per second.  The restart sweep runs with the JIT ON (the
+    # shipped mode): its interpreters execute the first m histories (digests compared among the JIT-on interpreters)
+    # plus a private slice of further histories each, with all in-run checks active.
+    jit = False
+    sweep_hashseeds = {"quick": [0, 1, 2, 3], "thorough": [0, 1, 2, 3, 5, 8, 13, 21, 34, 55, 89, 144]}
+    sweep_slice = {"quick": 12, "thorough": 150}
+    nojit_sweep_hashseeds = {"quick": [7, 8], "thorough": [7, 8, 9, 10, 11, 12]}
     # For this property a digest that differs between interpreters IS the violation (restart_sweep part), not a
     # defect of the simulator, so the runner's generic fresh-interpreter self-test is replaced by the sweep.  (The
     # same-interpreter second-worker comparison stays a harness error.)
@@ -147,12 +254,24 @@ class C09Engine(Engine):
         # the restart sweep pays its own import cost concurrently with the main batch
         if os.environ.get("VERIF_MODE") == "main" and not os.environ.get("VERIF_SKIP_FRESH"):
             m = self.selftest_m[tier]
-            for hs in self.sweep_hashseeds[tier]:
+            n_batch = int(os.environ.get("VERIF_RUNS") or 0) or self.n_runs(tier)
+            for j, hs in enumerate(self.sweep_hashseeds[tier]):
                 env = fresh_env(hs)
+                env["VERIF_FORCE_JIT"] = "1"
+                # private slices lie beyond the batch's k range: different histories than the JIT-off batch ran
+                env["VERIF_EXTRA_RUNS"] = f"{n_batch + j * self.sweep_slice[tier]}:{self.sweep_slice[tier]}"
                 p = subprocess.Popen([sys.executable, os.path.join(VERIF_DIR, "sim", "main.py"), "C09", "--digests",
                                       str(m), "--tier", tier], env=env, stdout=subprocess.PIPE,
                                      stderr=subprocess.PIPE, text=True)
-                self.sweep.append((hs, p))
+                self.sweep.append((hs, "jit", p))
+            for hs in self.nojit_sweep_hashseeds[tier]:
+                env = fresh_env(hs)
+                env.pop("VERIF_FORCE_JIT", None)
+                env.pop("VERIF_EXTRA_RUNS", None)
+                p = subprocess.Popen([sys.executable, os.path.join(VERIF_DIR, "sim", "main.py"), "C09", "--digests",
+                                      str(m), "--tier", tier], env=env, stdout=subprocess.PIPE,
+                                     stderr=subprocess.PIPE, text=True)
+                self.sweep.append((hs, "nojit", p))
             # cheap extra hash seeds for the prior-construction code (plain Python, sets/dicts of node ids): JIT off
             self.prior_sweep = []
             for hs in self.prior_sweep_hashseeds[tier]:
@@ -164,7 +283,7 @@ class C09Engine(Engine):
                 self.prior_sweep.append((hs, p))
 
     def n_runs(self, tier):
-        return {"quick": 700, "thorough": 60000}[tier]
+        return {"quick": 1500, "thorough": 150000}[tier]
 
     def rule(self):
         return ("Each run is a history of 3-9 public-API operations on 1-3 tape-generated tree sequences: "
@@ -207,6 +326,45 @@ class C09Engine(Engine):
     # call is compared with is computed in a pristine interpreter state, i.e. it is what a fresh process would
     # return - a call whose output depends on EARLIER calls of the same history differs from it.
     def run(self, tape):
+        import numba
+
+        install_cache_seam()
+        if numba.config.DISABLE_JIT:
+            return self._run_with_module_isolation(tape)
+        return self._run_with_fork_isolation(tape)
+
+    def _run_with_module_isolation(self, tape):
+        """JIT off: the history runs in a fresh copy of the tsdate package and every reference evaluation in another
+        fresh copy (20 ms each), so module-level state of tsdate cannot flow between runs, nor from the history into
+        a reference."""
+        import shutil
+        import tempfile
+
+        def ask_ref(tables, kw_ref, prior_params):
+            mods = fresh_tsdate_modules()
+            box = tempfile.mkdtemp(prefix="verif-c09-ref-")
+            saved = _CACHE_DIR[0]
+            _CACHE_DIR[0] = box
+            undo, _ = vclock.install(vclock.VClock(tick=0.001), mods["clock_modules"][:3])
+            try:
+                ts = tables.tree_sequence()
+                kw = dict(kw_ref)
+                if prior_params is not None:
+                    kw["priors"] = self.build_prior(mods["tsdate"], ts, prior_params)
+                return self.evaluate(mods["tsdate"], ts, kw)
+            finally:
+                undo()
+                _CACHE_DIR[0] = saved
+                shutil.rmtree(box, ignore_errors=True)
+                drop_modules(mods)
+
+        mods = fresh_tsdate_modules()
+        try:
+            return self._run_body(tape, ask_ref, mods)
+        finally:
+            drop_modules(mods)
+
+    def _run_with_fork_isolation(self, tape):
         import pickle
         import traceback as tb
 
@@ -273,7 +431,8 @@ class C09Engine(Engine):
 
                 M = _setup()
                 box = tempfile.mkdtemp(prefix="verif-c09-ref-")
-                appdirs.user_cache_dir = lambda *a, **k: os.path.join(box, "cache")
+                install_cache_seam()
+                _CACHE_DIR[0] = box
                 clk = vclock.VClock(tick=0.001)
                 vclock.install(clk, M["clock_modules"])
                 try:
@@ -302,8 +461,8 @@ class C09Engine(Engine):
             raise HarnessError(f"C09: reference evaluation failed: {out}")
         return out
 
-    def _run_body(self, tape, ask_ref):
-        M = _setup()
+    def _run_body(self, tape, ask_ref, mods=None):
+        M = mods if mods is not None else _setup()
         tsdate = M["tsdate"]
         res = blank_result()
         log = EventLog()
@@ -325,13 +484,13 @@ class C09Engine(Engine):
         M["discrete"].multiprocessing = mp
         # the user cache directory is part of the history: every run starts with a cold cache in its own scratch
         # directory (real files; the appdirs seam only redirects the location)
-        import appdirs
         import shutil
         import tempfile
 
         box = tempfile.mkdtemp(prefix="verif-c09-")
-        real_ucd = appdirs.user_cache_dir
-        appdirs.user_cache_dir = lambda *a, **k: os.path.join(box, "cache")
+        install_cache_seam()
+        saved_cache_dir = _CACHE_DIR[0]
+        _CACHE_DIR[0] = box
         shared = []  # dicts: prior, params, ts index, original (lin copy), conversions, spaces
         reference = {}  # key -> ("ok", digest, times, md) | ("raised", type)
         seen_threads = {}
@@ -379,7 +538,7 @@ class C09Engine(Engine):
         finally:
             M["discrete"].multiprocessing = real_mp
             undo_clock()
-            appdirs.user_cache_dir = real_ucd
+            _CACHE_DIR[0] = saved_cache_dir
             try:
                 if os.path.isdir(os.path.join(box, "cache")) and os.listdir(os.path.join(box, "cache")):
                     stats["probe.cache_file_written"] += 1
@@ -578,34 +737,60 @@ class C09Engine(Engine):
         if self.sweep:
             viol = []
             checked = 0
-            for hs, p in self.sweep:
+            jit_runs = 0
+            known_seen = {}
+            base = {}  # mode -> (hashseed, digests) to compare with: the batch for JIT-off, the first interpreter for JIT-on
+            base["nojit"] = (0, {str(k): d for k, d in per_k.items()})
+            for hs, mode, p in self.sweep:
                 try:
-                    out, err = p.communicate(timeout=3000)
+                    out, err = p.communicate(timeout=6000)
                 except subprocess.TimeoutExpired:
                     p.kill()
-                    raise HarnessError(f"restart sweep (PYTHONHASHSEED={hs}) timed out")
+                    raise HarnessError(f"restart sweep (PYTHONHASHSEED={hs}, {mode}) timed out")
                 if p.returncode != 0:
-                    raise HarnessError(f"restart sweep (PYTHONHASHSEED={hs}) failed rc={p.returncode}: {err[-1500:]}")
+                    raise HarnessError(f"restart sweep (PYTHONHASHSEED={hs}, {mode}) failed rc={p.returncode}: "
+                                       f"{err[-1500:]}")
                 line = [ln for ln in out.splitlines() if ln.startswith("DIGESTS ")]
                 if not line:
-                    raise HarnessError(f"restart sweep (PYTHONHASHSEED={hs}) printed no digests")
+                    raise HarnessError(f"restart sweep (PYTHONHASHSEED={hs}, {mode}) printed no digests")
                 fd = json.loads(line[-1][8:])
-                for k, d in sorted(per_k.items()):
+                if mode == "jit":
+                    jit_runs += sum(json.loads(ln[5:]) for ln in out.splitlines() if ln.startswith("RUNS "))
+                    for ln in out.splitlines():
+                        if ln.startswith("VIOL "):
+                            v = json.loads(ln[5:])
+                            if v.get("known"):
+                                known_seen[v["known"]] = known_seen.get(v["known"], 0) + 1
+                                continue
+                            viol.append({"cls": v["cls"], "site": v["site"] + ":jit-on",
+                                         "detail": f"(JIT on, PYTHONHASHSEED={hs}, run k={v['k']}) " + v["detail"],
+                                         "replay_args": {"jit_run": True, "k": v["k"], "hashseed": hs, "seed": seed,
+                                                         "tier": tier, "cls": v["cls"], "site": v["site"]}})
+                if mode not in base:
+                    base[mode] = (hs, fd)
+                    continue
+                bhs, bd = base[mode]
+                for k, d in sorted(bd.items(), key=lambda x: int(x[0])):
                     checked += 1
-                    if fd.get(str(k)) != d:
+                    if fd.get(k) != d:
                         viol.append({"cls": "restart-nondeterminism", "site": "fresh-interpreter",
-                                     "detail": f"run k={k} (VERIF_SEED={seed}) gives event-log digest {fd.get(str(k))} in a "
-                                               f"fresh interpreter with PYTHONHASHSEED={hs} but {d} in the batch "
-                                               f"(PYTHONHASHSEED=0): some per-call output digest differs across "
-                                               f"process restarts",
-                                     "replay_args": {"k": k, "hashseed": hs, "seed": seed, "tier": tier}})
+                                     "detail": f"run k={k} (VERIF_SEED={seed}, {mode}) gives event-log digest {fd.get(k)} in a "
+                                               f"fresh interpreter with PYTHONHASHSEED={hs} but {d} with "
+                                               f"PYTHONHASHSEED={bhs}: some per-call output digest differs across process "
+                                               f"restarts",
+                                     "replay_args": {"k": int(k), "hashseeds": [bhs, hs], "mode": mode, "seed": seed,
+                                                     "tier": tier}})
                         break
-            parts.append({"name": "restart_sweep", "evaluations": checked, "distinct_nontrivial": checked,
-                          "hashseeds": [hs for hs, _ in self.sweep], "runs_per_interpreter": len(per_k),
-                          "violations": viol,
+            for what, n in known_seen.items():
+                print(f"KNOWN-FINDING: property=C09 {what} (seen {n}x in the JIT-on slices)")
+            parts.append({"name": "restart_sweep", "evaluations": checked + jit_runs, "distinct_nontrivial": checked,
+                          "interpreters": [(hs, mode) for hs, mode, _ in self.sweep],
+                          "digest_comparisons": checked, "jit_on_histories_run_with_all_checks": jit_runs,
+                          "violations": viol[:3],
                           "samples": [{"what": "per-run event-log digests (each includes every call's output-table "
-                                               "digest) recomputed in a fresh interpreter",
-                                       "hashseeds": [hs for hs, _ in self.sweep]}]})
+                                               "digest) recomputed in fresh interpreters; JIT-on interpreters also run a "
+                                               "private slice of histories each with all in-run checks",
+                                       "interpreters": [(hs, mode) for hs, mode, _ in self.sweep]}]})
         if self.prior_sweep:
             outs = {}
             for hs, p in self.prior_sweep:
@@ -696,6 +881,31 @@ class C09Engine(Engine):
 
     def replay_part(self, doc):
         a = doc["violation"]["replay_args"]
+        if a.get("jit_run"):
+            env = fresh_env(a["hashseed"])
+            env["VERIF_FORCE_JIT"] = "1"
+            env["VERIF_SEED"] = str(a["seed"])
+            env["VERIF_EXTRA_RUNS"] = f"{a['k']}:1"
+            p = subprocess.run([sys.executable, os.path.join(VERIF_DIR, "sim", "main.py"), "C09", "--digests", "0",
+                                "--tier", a["tier"]], env=env, capture_output=True, text=True)
+            hits = [json.loads(ln[5:]) for ln in p.stdout.splitlines() if ln.startswith("VIOL ")]
+            hit = [h for h in hits if h["cls"] == a["cls"] and h["site"] == a["site"]]
+            return bool(hit), (hit[0]["detail"] if hit else f"violations now: {hits}")
+        if "hashseeds" in a and "mode" in a:
+            digs = []
+            for hs in a["hashseeds"]:
+                env = fresh_env(hs)
+                env["VERIF_SEED"] = str(a["seed"])
+                env.pop("VERIF_EXTRA_RUNS", None)
+                if a["mode"] == "jit":
+                    env["VERIF_FORCE_JIT"] = "1"
+                else:
+                    env.pop("VERIF_FORCE_JIT", None)
+                p = subprocess.run([sys.executable, os.path.join(VERIF_DIR, "sim", "main.py"), "C09", "--digests",
+                                    str(a["k"] + 1), "--tier", a["tier"]], env=env, capture_output=True, text=True)
+                line = [ln for ln in p.stdout.splitlines() if ln.startswith("DIGESTS ")]
+                digs.append(json.loads(line[-1][8:]).get(str(a["k"])) if line else None)
+            return digs[0] != digs[1], f"digests of run {a['k']} under PYTHONHASHSEED {a['hashseeds']} ({a['mode']}): {digs}"
         if a.get("prior_sweep"):
             digs = []
             for hs in a["hashseeds"]:
